@@ -634,6 +634,20 @@ pub fn run(ctx: &Ctx) -> Vec<Eng> {
         }
         e1.bounds.push_str("; plus follow(g1) followed by all 40-operation sequences within 2 deviations of `update`");
     }
+    {
+        let (ph, maxp) = if ctx.thorough { (48, 4) } else { (40, 3) };
+        for constant in [false, true] {
+            par_periodic(&mut e1, OPS.len(), maxp, ph, budget, |seq, e| settable_history(seq, constant, e));
+            par_long(&mut e1, OPS.len(), 2, &LONG_LENS, budget, |seq, e| {
+                // follow(g1) first, so that updates forward
+                let mut s2 = vec![3usize];
+                s2.extend_from_slice(seq);
+                settable_history(&s2, constant, e)
+            });
+        }
+        e1.bounds.push_str(&format!("; plus long runs: follow(g1), then every primitive word of length <= 2 repeated to 255..257 and 511..513 operations followed by one operation of each kind ({} sequences x 2 settables)", long_count(OPS.len(), 2, &LONG_LENS)));
+        e1.bounds.push_str(&format!("; plus periodic sequences: every primitive word of length <= {} over the 10 operations repeated to {} operations, with at most one deviation ({} sequences x 2 settables)", maxp, ph, periodic_count(OPS.len(), maxp, ph)));
+    }
     let tdepth = if ctx.thorough { 6 } else { 5 };
     let mut e1b = Eng::new(
         "c15-terminal-following",
@@ -645,6 +659,12 @@ pub fn run(ctx: &Ctx) -> Vec<Eng> {
         e.sample(|| tops_show(seq));
         a
     });
+    {
+        let (ph, maxp) = if ctx.thorough { (48, 3) } else { (40, 3) };
+        par_periodic(&mut e1b, TOPS.len(), maxp, ph, budget, |seq, e| terminal_history(seq, e));
+        par_long(&mut e1b, TOPS.len(), 2, &LONG_LENS, budget, |seq, e| terminal_history(seq, e));
+        e1b.bounds.push_str(&format!("; plus periodic sequences: every primitive word of length <= {} over the 15 operations repeated to {} operations, with at most one deviation ({} sequences)", maxp, ph, periodic_count(TOPS.len(), maxp, ph)));
+    }
     let hdepth = if ctx.thorough { 7 } else { 6 };
     let mut e2 = Eng::new(
         "c15-history-adapter",
@@ -676,6 +696,14 @@ pub fn run(ctx: &Ctx) -> Vec<Eng> {
             });
         }
         e2.bounds.push_str("; plus all 40-operation sequences within 2 deviations of `get`");
+    }
+    {
+        let (ph, maxp) = (40, 3);
+        for ctor in 0..4 {
+            par_periodic(&mut e2, HOPS.len(), maxp, ph, budget, |seq, e| history_case(ctor, 17, seq, e));
+            par_long(&mut e2, HOPS.len(), 2, &LONG_LENS, budget, |seq, e| history_case(ctor, 17, seq, e));
+        }
+        e2.bounds.push_str(&format!("; plus periodic sequences: every primitive word of length <= {} over the 11 operations repeated to {} operations, with at most one deviation ({} sequences x 4 constructors)", maxp, ph, periodic_count(HOPS.len(), maxp, ph)));
     }
     history_extreme_clocks(&mut e2);
     e2.bounds.push_str("; plus clocks at i64::MIN, MIN+1, -1, MAX-1, MAX x 2 constructors x all 7^3 sequences of set_time/set_delta/get (steps that overflow by specification end the case)");
